@@ -24,6 +24,15 @@ CHECKS = {
         note="conditioning from a finite-difference Jacobian at the point; declared constants: cubic quadratic_threshold/eps, UMNN bisection, Sigmoid clamp; at kinks either one-sided log-det is accepted",
         ref="DESIGN.md 4/C02",
     ),
+    "C04": dict(
+        technique="bounded-exhaustive enumeration of flow programs x bases x context rows x num_samples with torch.randn owned by a tagging / quantile-lattice seam; exact pairing and push-forward oracles",
+        text="For every flow configuration (four transform programs x StandardNormal / conditional / diagonal base x raw / embedded / no context; MaskedAutoregressiveFlow; SimpleRealNVP; <=2 (<=3) "
+        "deviations), 1..3 context rows and num_samples in {1,2,3,5}: the log-probs returned by sample_and_log_prob must equal log_prob(sample[i,j], context[i]); transform_to_noise must recover "
+        "exactly the injected noise item i*n+j (pins block i to context row i for sample and sample_and_log_prob); the sampler must request exactly rows*n noise items; and for 1-feature flows the samples "
+        "generated from the normal mid-quantile lattice must sit at the matching quantiles of the quadrature CDF of exp(log_prob), monotonically.",
+        note="float64 noise supplied by the seam; the convergence-in-distribution clause is decided in its deterministic push-forward form for 1-feature flows, and through C03 + pairing otherwise",
+        ref="DESIGN.md 4/C04",
+    ),
     "C05": dict(
         technique="bounded-exhaustive enumeration of distribution classes x event shapes x encoders x patterns x context rows; oracles: exact summation, deterministic sinh-grid quadrature with self-estimated error, and an exact push-forward identity on an injected quantile lattice (RNG seam)",
         text="Every density-returning object is integrated deterministically: exact sum over {0,1}^n for the Bernoulli, 1-D / 2-D midpoint quadrature (n and n/2 points) for the normal family, the MADE "
